@@ -283,7 +283,7 @@ def R8_binders(ctx, rid, core):
     inl = core.hir_fn(A2S + "expr_to_source_with_scope")
     from rules.c04 import innermost_ast_arm
     b_cfv = set()
-    for n, e, g in scope.sites(cfv["body"], lambda n: H.kind(n) == "MethodCall" and n["name"] == "insert" and "HashSet" in n.get("recv_ty", ""), S.Env()):
+    for n, e, g in scope.sites(cfv["body"], lambda n: H.kind(n) == "MethodCall" and n["name"] in ("insert", "extend") and "HashSet" in n.get("recv_ty", ""), S.Env()):
         b_cfv.add(innermost_ast_arm(g))
     b_inl = {}
     for n, e, g in scope.sites(inl["body"], lambda n: H.kind(n) == "MethodCall" and n["name"] in ("shift_remove", "swap_remove", "remove", "retain") and "IndexMap" in n.get("recv_ty", ""), S.Env()):
